@@ -864,6 +864,23 @@ def _unpack_to_subscripts(fn, rf, log, q):
         ast.fix_missing_locations(fn)
 
 
+def _recorded_display_twin(rf, elts):
+    """The reference records a local whose definition is a list / tuple
+    display of exactly these elements: a current local with that display is
+    the recorded local under another name (left to the pairing steps)."""
+    txt = [_n(e) for e in elts]
+    for nm_, ds_ in rf.get('defs', {}).items():
+        for d_ in ds_:
+            try:
+                dn_ = ast.parse(d_, mode='eval').body
+            except SyntaxError:
+                continue
+            if isinstance(dn_, (ast.List, ast.Tuple)) and \
+                    [_n(e) for e in dn_.elts] == txt:
+                return True
+    return False
+
+
 def _scalarise_tuple_locals(fn, rf, log, q):
     """A local the reference does not know that is only ever bound to tuple
     displays of one length n and only read as x[<int constant>] or as a whole
@@ -909,6 +926,8 @@ def _scalarise_tuple_locals(fn, rf, log, q):
         if n < 2 or any(len(st.value.elts) != n for _b, st in asg):
             continue
         if any(x in _names(st.value) for _b, st in asg):
+            continue
+        if any(_recorded_display_twin(rf, st.value.elts) for _b, st in asg):
             continue
         tried = _in_try(fn)
         if any(id(st) in tried for _b, st in asg):
